@@ -259,7 +259,12 @@ func exec(p *Pool, o Op) (out Outcome, bad error) {
 			out.Err = v.UpdateIndex(int(a(1)))
 		}
 	default:
-		bad = fmt.Errorf("unknown operation %q", o.Name)
+		handled, b := execExtra(p, o, &out)
+		if b != nil {
+			bad = b
+		} else if !handled {
+			bad = fmt.Errorf("unknown operation %q", o.Name)
+		}
 	}
 	return
 }
